@@ -1487,6 +1487,9 @@ class ComponentSpecification(experiment.model.interface.InternalRepresentationAt
                     # VV: lack of a dockerImage is equivalent to using the local backend
                     # VV: Use a consistent key with the kubernetes backend
                     return {'image': info_backend['dockerImage']}
+                elif backend_type == 'docker' and info_backend.get('image'):
+                    # VV: the docker backend runs the task in a container too
+                    return {'image': info_backend['image']}
                 return {}
 
             info_backend = postprocess_backend(backend_type, resourceManager.get(backend_type, {}))
